@@ -1,5 +1,6 @@
 import BleveModel.Proto
 import BleveModel.Model.Query
+import BleveModel.Model.BoolSearcher
 /-! Driver for the search-semantics (C02) and searcher-contract (C08) correspondences. -/
 namespace Bleve.Drv.C02
 open Bleve.Proto Bleve.Query
@@ -163,8 +164,28 @@ def step (toks : List String) : String :=
         let ctoks := (qt.dropWhile (· != "|")).drop 1
         match parseQ (qtoks.length + 1) qtoks, parseCalls ctoks with
         | some (q, []), some calls =>
-          joinWith "," ((runContract (den q docs) calls).map (fun o => match o with
+          let viaContract := runContract (den q docs) calls
+          -- a boolean query without filter is also run through the operational model of the boolean
+          -- searcher over the match lists of its clauses; the two answers must coincide
+          let viaMachine : Option (List (Option Nat)) := match q with
+            | .bool m s n Option.none =>
+              let must := match m, s with
+                | Option.none, Option.none => some (docs.map (·.iid))     -- only must_not: bleve adds match-all
+                | _, _ => m.map (fun x => den x docs)
+              let min0 := match s with
+                | some (.disj mn _) => mn == 0
+                | _ => true
+              let ops := calls.map (fun c => match c with
+                | .next => Bleve.BoolSearcher.Op.next | .adv t => Bleve.BoolSearcher.Op.adv t)
+              some (Bleve.BoolSearcher.runImpl (fun _ c => c)
+                (Bleve.BoolSearcher.init must (s.map (fun x => den x docs)) (n.map (fun x => den x docs)) min0) ops)
+            | _ => Option.none
+          let render := fun (l : List (Option Nat)) => joinWith "," (l.map (fun o => match o with
             | some i => toString i | none => "nil"))
+          match viaMachine with
+          | some r => if r == viaContract then render viaContract
+                      else "OPERATIONAL-MODEL-DISAGREES " ++ render r ++ " vs " ++ render viaContract
+          | Option.none => render viaContract
         | _, _ => "bad-op"
       | _ => "bad-op"
     | none => "bad-op"
